@@ -60,7 +60,7 @@ Lemma tpix_rt_888_le p r g b : tp_pack24 p = true -> tp_be p = false ->
   tpix_rt p (r * 2 ^ tp_rs p + g * 2 ^ tp_gs p + b * 2 ^ tp_bs p).
 Proof.
   intros HP HB HS Hr Hg Hb rest. unfold take_tpixel, tpixel_bytes, tp_fmt, grid_pixel_of_value.
-  cbn [tf_tp3 tf_be tf_rs tf_gs tf_bs]. rewrite HP, HB.
+  cbn [tf_tp3 tf_be tf_rs tf_gs tf_bs]. rewrite HP, HB. destruct (tp_swap p);
   destruct HS as [HS|HS]; inversion HS as [[E1 E2 E3]]; rewrite E1, E2, E3; cbn [app];
     rewrite !Z.shiftr_div_pow2 by lia; change (2 ^ 0) with 1; change (2 ^ 8) with 256; change (2 ^ 16) with 65536;
     f_equal; f_equal; lia.
@@ -97,6 +97,104 @@ Proof.
     change (2 ^ 0) with 1; change (2 ^ 8) with 256; change (2 ^ 16) with 65536; change (2 ^ 24) with 16777216; lia.
 Qed.
 
+Lemma bswap_involutive v : 0 <= v < 4294967296 -> le_val (rev (le_bytes 4 (le_val (rev (le_bytes 4 v))))) = v.
+Proof.
+  intros Hv. remember (rev (le_bytes 4 v)) as bs eqn:EB.
+  assert (OK : bytes_ok bs) by (subst bs; apply Forall_rev; apply le_bytes_ok).
+  assert (L : length bs = 4%nat) by (subst bs; rewrite rev_length; apply le_bytes_length).
+  pose proof (le_bytes_le_val bs OK) as Q. rewrite L in Q. rewrite Q. subst bs. rewrite rev_involutive.
+  apply le_val_le_bytes. unfold pix_ok. change (256 ^ Z.of_nat 4) with 4294967296. exact Hv.
+Qed.
+
+(* the repaired Pack24 (Swap32, then the plain shifts): faithful on every pixel whose three components can be
+   read back at their shifts - no alignment needed *)
+Lemma tpix_rt_repaired p r g b : tp_pack24 p = true -> tp_swap p = true ->
+  0 <= r * 2 ^ tp_rs p + g * 2 ^ tp_gs p + b * 2 ^ tp_bs p < 4294967296 ->
+  Z.shiftr (r * 2 ^ tp_rs p + g * 2 ^ tp_gs p + b * 2 ^ tp_bs p) (tp_rs p) mod 256 = r ->
+  Z.shiftr (r * 2 ^ tp_rs p + g * 2 ^ tp_gs p + b * 2 ^ tp_bs p) (tp_gs p) mod 256 = g ->
+  Z.shiftr (r * 2 ^ tp_rs p + g * 2 ^ tp_gs p + b * 2 ^ tp_bs p) (tp_bs p) mod 256 = b ->
+  tpix_rt p (grid_pixel_of_value (tp_be p) 4 (r * 2 ^ tp_rs p + g * 2 ^ tp_gs p + b * 2 ^ tp_bs p)).
+Proof.
+  intros HP HS V32 ER EG EB rest. unfold take_tpixel, tpixel_bytes, tp_fmt.
+  cbn [tf_tp3 tf_be tf_rs tf_gs tf_bs]. rewrite HP, HS. cbn [app].
+  remember (r * 2 ^ tp_rs p + g * 2 ^ tp_gs p + b * 2 ^ tp_bs p) as v eqn:EV.
+  unfold grid_pixel_of_value. destruct (tp_be p).
+  - rewrite (bswap_involutive v V32). rewrite ER, EG, EB. rewrite <- EV. reflexivity.
+  - rewrite ER, EG, EB. rewrite <- EV. reflexivity.
+Qed.
+
+Lemma extract_sorted a b c s t u : 0 <= a < 256 -> 0 <= b < 256 -> 0 <= c < 256 ->
+  0 <= s -> s + 8 <= t -> t + 8 <= u ->
+  Z.shiftr (a * 2 ^ s + b * 2 ^ t + c * 2 ^ u) s mod 256 = a /\
+  Z.shiftr (a * 2 ^ s + b * 2 ^ t + c * 2 ^ u) t mod 256 = b /\
+  Z.shiftr (a * 2 ^ s + b * 2 ^ t + c * 2 ^ u) u mod 256 = c /\
+  0 <= a * 2 ^ s + b * 2 ^ t + c * 2 ^ u < 2 ^ (u + 8).
+Proof.
+  intros Ha Hb Hc Hs Ht Hu. rewrite !Z.shiftr_div_pow2 by lia.
+  replace t with (s + 8 + (t - s - 8)) by lia. replace u with (s + 8 + (t - s - 8) + 8 + (u - t - 8)) by lia.
+  set (d1 := t - s - 8). set (d2 := u - t - 8). assert (0 <= d1) by (unfold d1; lia). assert (0 <= d2) by (unfold d2; lia).
+  rewrite !Z.pow_add_r by lia. change (2 ^ 8) with 256.
+  pose proof (Z.pow_pos_nonneg 2 s ltac:(lia) Hs) as PP.
+  pose proof (Z.pow_pos_nonneg 2 d1 ltac:(lia) H) as P1.
+  pose proof (Z.pow_pos_nonneg 2 d2 ltac:(lia) H0) as P2.
+  set (P := 2 ^ s) in *. set (D1 := 2 ^ d1) in *. set (D2 := 2 ^ d2) in *.
+  assert (B1 : 0 <= a * P < P * 256) by nia.
+  assert (B2 : P * 256 <= P * 256 * D1) by nia.
+  assert (B3 : 0 <= b * (P * 256 * D1) <= 255 * (P * 256 * D1)) by nia.
+  assert (B4 : P * 256 * D1 * 256 <= P * 256 * D1 * 256 * D2) by nia.
+  assert (E1 : (a * P + b * (P * 256 * D1) + c * (P * 256 * D1 * 256 * D2)) / P = a + 256 * (D1 * (b + 256 * D2 * c))).
+  { symmetry. apply Z.div_unique with 0; [lia|ring]. }
+  assert (E2 : (a * P + b * (P * 256 * D1) + c * (P * 256 * D1 * 256 * D2)) / (P * 256 * D1) = b + 256 * (D2 * c)).
+  { symmetry. apply Z.div_unique with (a * P); [lia|ring]. }
+  assert (E3 : (a * P + b * (P * 256 * D1) + c * (P * 256 * D1 * 256 * D2)) / (P * 256 * D1 * 256 * D2) = c).
+  { symmetry. apply Z.div_unique with (a * P + b * (P * 256 * D1)); [lia|ring]. }
+  rewrite E1, E2, E3. repeat split.
+  - rewrite (Z.mul_comm 256), Z_mod_plus_full. apply Z.mod_small; lia.
+  - rewrite (Z.mul_comm 256), Z_mod_plus_full. apply Z.mod_small; lia.
+  - apply Z.mod_small; lia.
+  - nia.
+  - nia.
+Qed.
+
+(* three 8-bit components anywhere in the low 32 bits, at least 8 bits apart, in any order *)
+Definition spaced (s t u : Z) : Prop := 0 <= s /\ s + 8 <= t /\ t + 8 <= u /\ u <= 24.
+
+Lemma extract_any r g b rs gs bs : 0 <= r < 256 -> 0 <= g < 256 -> 0 <= b < 256 ->
+  spaced rs gs bs \/ spaced rs bs gs \/ spaced gs rs bs \/ spaced gs bs rs \/ spaced bs rs gs \/ spaced bs gs rs ->
+  Z.shiftr (r * 2 ^ rs + g * 2 ^ gs + b * 2 ^ bs) rs mod 256 = r /\
+  Z.shiftr (r * 2 ^ rs + g * 2 ^ gs + b * 2 ^ bs) gs mod 256 = g /\
+  Z.shiftr (r * 2 ^ rs + g * 2 ^ gs + b * 2 ^ bs) bs mod 256 = b /\
+  0 <= r * 2 ^ rs + g * 2 ^ gs + b * 2 ^ bs < 4294967296.
+Proof.
+  intros Hr Hg Hb S.
+  assert (TOP : forall u, u <= 24 -> 2 ^ (u + 8) <= 4294967296).
+  { intros u Hu. change 4294967296 with (2 ^ 32). apply Z.pow_le_mono_r; lia. }
+  destruct S as [S|[S|[S|[S|[S|S]]]]]; destruct S as (S0 & S1 & S2 & S3).
+  - destruct (extract_sorted r g b rs gs bs Hr Hg Hb S0 S1 S2) as (A & B & C & D). specialize (TOP bs S3). repeat split; auto; lia.
+  - replace (r * 2 ^ rs + g * 2 ^ gs + b * 2 ^ bs) with (r * 2 ^ rs + b * 2 ^ bs + g * 2 ^ gs) by ring.
+    destruct (extract_sorted r b g rs bs gs Hr Hb Hg S0 S1 S2) as (A & B & C & D). specialize (TOP gs S3). repeat split; auto; lia.
+  - replace (r * 2 ^ rs + g * 2 ^ gs + b * 2 ^ bs) with (g * 2 ^ gs + r * 2 ^ rs + b * 2 ^ bs) by ring.
+    destruct (extract_sorted g r b gs rs bs Hg Hr Hb S0 S1 S2) as (A & B & C & D). specialize (TOP bs S3). repeat split; auto; lia.
+  - replace (r * 2 ^ rs + g * 2 ^ gs + b * 2 ^ bs) with (g * 2 ^ gs + b * 2 ^ bs + r * 2 ^ rs) by ring.
+    destruct (extract_sorted g b r gs bs rs Hg Hb Hr S0 S1 S2) as (A & B & C & D). specialize (TOP rs S3). repeat split; auto; lia.
+  - replace (r * 2 ^ rs + g * 2 ^ gs + b * 2 ^ bs) with (b * 2 ^ bs + r * 2 ^ rs + g * 2 ^ gs) by ring.
+    destruct (extract_sorted b r g bs rs gs Hb Hr Hg S0 S1 S2) as (A & B & C & D). specialize (TOP gs S3). repeat split; auto; lia.
+  - replace (r * 2 ^ rs + g * 2 ^ gs + b * 2 ^ bs) with (b * 2 ^ bs + g * 2 ^ gs + r * 2 ^ rs) by ring.
+    destruct (extract_sorted b g r bs gs rs Hb Hg Hr S0 S1 S2) as (A & B & C & D). specialize (TOP rs S3). repeat split; auto; lia.
+Qed.
+
+(* C01_tight_tpixel_repaired: with the repaired Pack24 EVERY 8-8-8 format in 32 bits is TPIXEL-faithful,
+   aligned or not, either byte order *)
+Theorem tpix_rt_repaired_any p r g b : tp_pack24 p = true -> tp_swap p = true ->
+  spaced (tp_rs p) (tp_gs p) (tp_bs p) \/ spaced (tp_rs p) (tp_bs p) (tp_gs p) \/ spaced (tp_gs p) (tp_rs p) (tp_bs p) \/
+  spaced (tp_gs p) (tp_bs p) (tp_rs p) \/ spaced (tp_bs p) (tp_rs p) (tp_gs p) \/ spaced (tp_bs p) (tp_gs p) (tp_rs p) ->
+  0 <= r < 256 -> 0 <= g < 256 -> 0 <= b < 256 ->
+  tpix_rt p (grid_pixel_of_value (tp_be p) 4 (r * 2 ^ tp_rs p + g * 2 ^ tp_gs p + b * 2 ^ tp_bs p)).
+Proof.
+  intros HP HS SP Hr Hg Hb. destruct (extract_any r g b _ _ _ Hr Hg Hb SP) as (A & B & C & D).
+  apply tpix_rt_repaired; assumption.
+Qed.
+
 (* every byte-aligned placement of the three bytes in the 32 bits, either endianness *)
 Lemma tpix_rt_888 p r g b : tp_pack24 p = true ->
   (tp_rs p = 0 \/ tp_rs p = 8 \/ tp_rs p = 16 \/ tp_rs p = 24) -> (tp_gs p = 0 \/ tp_gs p = 8 \/ tp_gs p = 16 \/ tp_gs p = 24) ->
@@ -105,8 +203,7 @@ Lemma tpix_rt_888 p r g b : tp_pack24 p = true ->
   0 <= r < 256 -> 0 <= g < 256 -> 0 <= b < 256 ->
   tpix_rt p (grid_pixel_of_value (tp_be p) 4 (r * 2 ^ tp_rs p + g * 2 ^ tp_gs p + b * 2 ^ tp_bs p)).
 Proof.
-  intros HP HR HG HB N1 N2 N3 Hr Hg Hb rest. unfold take_tpixel, tpixel_bytes, tp_fmt.
-  cbn [tf_tp3 tf_be tf_rs tf_gs tf_bs]. rewrite HP. cbn [app].
+  intros HP HR HG HB N1 N2 N3 Hr Hg Hb.
   set (v := r * 2 ^ tp_rs p + g * 2 ^ tp_gs p + b * 2 ^ tp_bs p).
   assert (ER : Z.shiftr v (tp_rs p) mod 256 = r) by (apply extract_byte; auto).
   assert (EG : Z.shiftr v (tp_gs p) mod 256 = g).
@@ -116,6 +213,9 @@ Proof.
   { unfold v. replace (r * 2 ^ tp_rs p + g * 2 ^ tp_gs p + b * 2 ^ tp_bs p) with (b * 2 ^ tp_bs p + r * 2 ^ tp_rs p + g * 2 ^ tp_gs p) by ring.
     apply extract_byte; auto. }
   assert (V32 : 0 <= v < 4294967296) by (apply three_bytes_bound; auto).
+  destruct (tp_swap p) eqn:SW; [apply tpix_rt_repaired; assumption|].
+  intros rest. unfold take_tpixel, tpixel_bytes, tp_fmt.
+  cbn [tf_tp3 tf_be tf_rs tf_gs tf_bs]. rewrite HP, SW. cbn [app]. fold v.
   unfold grid_pixel_of_value. destruct (tp_be p).
   - rewrite !bswap_byte by auto. rewrite ER, EG, EB. reflexivity.
   - rewrite ER, EG, EB. reflexivity.
@@ -527,6 +627,6 @@ Qed.
 
 (* F5: configuration 0 (compression level 0) emits control bytes the specification does not know *)
 Theorem tight_level0_refuted :
-  exists g payload, tight_subrect (mkTP 1 false false 0 0 0 0 false false) 1 2 g = Some (TPayload payload) /\
+  exists g payload, tight_subrect (mkTP 1 false false 0 0 0 0 false false false) 1 2 g = Some (TPayload payload) /\
     dec_tight (mkTF 1 false false 0 0 0) 1 2 payload = None.
 Proof. exists [[6]; [125]], [160; 6; 125]. split; vm_compute; reflexivity. Qed.
